@@ -143,7 +143,7 @@ def cli_leg(part, case, variant, probe_exe, out, owner):
         part.count("cli: constraints evaluated on solution files", njudged)
         for kind, txt, detail in bad:
             if kind == "unjudged":
-                if owner == "C01" and probe_solved:
+                if owner == "C01" and probe_solved and "non-finite" not in detail:       # (an infinite time point is not judged anywhere)
                     try:
                         pb, _ = judge_constraints([c for c in case["cons"] if riddle.show(c) == txt], solverlib.Solution(out.post))
                     except Exception:
